@@ -121,6 +121,13 @@ func c14Alphabet(s *sessSys) []sessReq {
 	add("ufar2+unknown-flag", sessReq{sReq: sReq{Kind: kMod, Conn: 0, UpdateFAR: []sFAR{mkU(2, c14Peers[1], 0x2002, flagOn), mkU(77, c14Peers[0], 0x1001, flagOn)}}, Sess: 0})
 	add("ufar2-buffer-flag", sessReq{sReq: sReq{Kind: kMod, Conn: 0, UpdateFAR: []sFAR{{ID: 2, Action: ActionBuffer | ActionNotify, HasFwd: true, SMFlags: flagOn}}}, Sess: 0})
 	add("ufar-flag-unknown-session", sessReq{sReq: sReq{Kind: kMod, Conn: 0, UpdateFAR: []sFAR{mkU(2, c14Peers[1], 0x2002, flagOn)}}, Sess: -1})
+	// refused requests that carry a flagged update of a known FAR: nothing is emitted, neither now nor with a later request
+	add("ufar2-flag-refused-remove-unknown", sessReq{sReq: sReq{Kind: kMod, Conn: 0, UpdateFAR: []sFAR{mkU(2, c14Peers[1], 0x2002, flagOn)}, RemovePDR: []uint16{99}}, Sess: 0})
+	add("ufar2-flag-refused-bad-pdr", sessReq{sReq: sReq{Kind: kMod, Conn: 0, UpdateFAR: []sFAR{mkU(2, c14Peers[0], 0x1001, flagOn)},
+		CreatePDR: []sPDR{{ID: 8, Prec: 10, Src: ie.SrcInterfaceCore, UEIP: "16.0.0.1", BadSDF: true, FAR: 2}}}, Sess: 0})
+	if s.in.cfg.P4 {
+		add("ufar2-flag-refused-write-fails", sessReq{sReq: sReq{Kind: kMod, Conn: 0, UpdateFAR: []sFAR{mkU(2, c14Peers[1], 0x2002, flagOn)}}, Sess: 0, FailAt: 1})
+	}
 	if x.far(9) == nil {
 		add("create-far-with-flag", sessReq{sReq: sReq{Kind: kMod, Conn: 0, CreateFAR: []sFAR{{ID: 9, Action: ActionForward, HasFwd: true, HasDst: true, Dst: ie.DstInterfaceAccess, OHCIP: c14Peers[0], OHCTEID: 0x9009, SMFlags: flagOn}}}, Sess: 0})
 	}
@@ -239,6 +246,7 @@ func TestVerifC14(t *testing.T) {
 			st := &c14State{}
 			pre, post := c14Oracle(st)
 			s := newSessSys(ex, res, sc.Cfg, c14Alphabet, post)
+			s.afterRefusal = true
 			s.preStep = pre
 			s.poisonOnViolation = true
 			return s
